@@ -669,17 +669,45 @@ def dm_update(vm, o, args, kw):
         o[k] = v
 
 
+def im_bit_length(vm, o, args, kw):
+    """int.bit_length() of a symbolic int with known bounds: a value (sum of threshold tests), not a fork."""
+    if not isinstance(o, SInt):
+        return o.bit_length()
+    lo, hi = z3.bounds(o.e)
+    if lo is None or hi is None:
+        raise Unsupported('bit_length of an unbounded symbolic int')
+    m = max(abs(lo), abs(hi)).bit_length()
+    mag = z3.If(o.e < 0, -o.e, o.e) if lo < 0 else o.e
+    return mk_int(z3.Sum([z3.If(mag >= 2 ** i, 1, 0) for i in range(m)]))
+
+
 def im_to_bytes(vm, o, args, kw):
     length = args[0] if args else kw.get('length', 1)
     order = args[1] if len(args) > 1 else kw.get('byteorder', 'big')
     signed = kw.get('signed', False)
-    if not isinstance(o, SInt):
+    if not isinstance(o, SInt) and not is_sym(length):
         return o.to_bytes(*args, **kw)
-    if is_sym(length) or signed:
-        raise Unsupported('to_bytes symbolic length/signed')
-    if vm.truth(mk_bool(z3.Or(o.e < 0, o.e >= 256 ** length))):
+    if isinstance(length, SInt):
+        lo, hi = z3.bounds(length.e)
+        if lo is None or hi is None or hi - lo > 64:
+            raise Unsupported('to_bytes with an unbounded symbolic length')
+        length = vm.choose_int(length, lo, hi)
+    if length < 0:
+        raise ValueError('length argument must be non-negative')
+    e = zint(o)
+    if signed:
+        half = 256 ** length // 2
+        if vm.truth(mk_bool(z3.Or(e < -half, e >= half))) or length == 0:
+            if length == 0 and not vm.truth(mk_bool(e != 0)):
+                return b''
+            raise OverflowError('int too big to convert')
+        if vm.truth(mk_bool(e < 0)):
+            e = e + 256 ** length
+    elif vm.truth(mk_bool(z3.Or(e < 0, e >= 256 ** length))):
         raise OverflowError('int too big to convert')
-    atoms = split_bytes(vm, o.e, length)
+    if length == 0:
+        return b''
+    atoms = list(split_bytes(vm, e, length))
     if order == 'big':
         atoms.reverse()
     return mk_bytes(atoms)
@@ -922,6 +950,7 @@ def install(vm):
                         ('pop', dm_pop), ('update', dm_update)]:
         MM[(dict, name)] = model
     MM[(SInt, 'to_bytes')] = im_to_bytes
+    MM[(SInt, 'bit_length')] = im_bit_length
     vm.static_models[(int, 'from_bytes')] = m_int_from_bytes
     def m_hexlify(vm, args, kw):
         if is_sym(args[0]):
